@@ -473,6 +473,53 @@ pub fn key_partitions(t: &T, max_pos: usize) -> Vec<T> {
     out
 }
 
+/// Lock-value variants: every assignment of {10, 20, 500000010} to the `after` leaves and of
+/// {5, 6, 4194309} to the `older` leaves (terms with 2..=3 lock leaves; the base assignment excluded).
+pub fn lock_variants(t: &T) -> Vec<T> {
+    let na = t.afters().len();
+    let no = t.olders().len();
+    if na + no < 2 || na + no > 3 {
+        return vec![];
+    }
+    let av = [10u32, 20, 500_000_010];
+    let ov = [5u32, 6, 4_194_309];
+    let mut out = vec![];
+    let total = 3usize.pow((na + no) as u32);
+    for code in 0..total {
+        let mut digits = vec![];
+        let mut c = code;
+        for _ in 0..(na + no) {
+            digits.push(c % 3);
+            c /= 3;
+        }
+        if digits.iter().all(|d| *d == 0) {
+            continue;
+        }
+        let mut i = 0;
+        fn rec(t: &mut T, digits: &[usize], i: &mut usize, av: &[u32; 3], ov: &[u32; 3]) {
+            match t {
+                T::After(n) => {
+                    *n = av[digits[*i]];
+                    *i += 1;
+                }
+                T::Older(n) => {
+                    *n = ov[digits[*i]];
+                    *i += 1;
+                }
+                _ => {
+                    for c in t.children_mut() {
+                        rec(c, digits, i, av, ov);
+                    }
+                }
+            }
+        }
+        let mut t2 = t.clone();
+        rec(&mut t2, &digits, &mut i, &av, &ov);
+        out.push(t2);
+    }
+    out
+}
+
 /// The list of descriptor models for the execution-backed checks.
 pub fn descriptor_models(u: &Universe, n_seg: usize, n_shwsh: usize, n_leg: usize, n_tap: usize, n_part: usize) -> Vec<D> {
     let mut out = vec![];
@@ -502,12 +549,20 @@ pub fn descriptor_models(u: &Universe, n_seg: usize, n_shwsh: usize, n_leg: usiz
                 out.push(D::Wsh(p));
             }
         }
+        for v in lock_variants(t) {
+            out.push(D::Wsh(v));
+        }
     }
     for t in &b_terms(&u.legacy, n_leg) {
         out.push(D::Sh(t.clone()));
         if t.size() <= n_part {
             for p in key_partitions(t, 4) {
                 out.push(D::Sh(p));
+            }
+        }
+        if t.size() <= n_part + 1 {
+            for v in lock_variants(t) {
+                out.push(D::Sh(v));
             }
         }
     }
@@ -518,6 +573,9 @@ pub fn descriptor_models(u: &Universe, n_seg: usize, n_shwsh: usize, n_leg: usiz
             for p in key_partitions(t, 4) {
                 out.push(D::Tr("KI".into(), vec![(0, p)]));
             }
+        }
+        for v in lock_variants(t) {
+            out.push(D::Tr("KI".into(), vec![(0, v)]));
         }
     }
     // multi-leaf trees: ALL ordered pairs of B leaves <= n_tree2 nodes (2-leaf tree), and ALL
